@@ -1,5 +1,6 @@
 import IPT.Model.F64
 import IPT.Model.Bounded
+import IPT.Lemmas.Grammar
 import IPT.Real.Inst
 import Mathlib.Order.Monotone.Basic
 import Mathlib.Tactic.Ring
@@ -229,7 +230,7 @@ theorem textRoute_eq_number_route (lo hi : Nat) (s : String) (b : Nat) (hb : (pa
     pattern, for a type that carries `serde(try_from = "f64")` (all six do: `json_checked_all`):
     a value too large for f64 is an error on the JSON route and an infinity - rejected - on the
     text route.  The hypothesis carries the grammar agreement: it holds for every JSON number
-    (the JSON number grammar is contained in Rust's; validated on the string stream, not proved) and
+    (the JSON number grammar is contained in Rust's: `json_grammar_in_text_grammar`, so `json_text_agree_on_json_numbers` below needs no such hypothesis) and
     fails exactly on the strings only Rust's grammar reads - `+1`, `01`, `1.`, `.5`, `inf`, `nan` - which
     the text route accepts or rejects by value and the JSON route rejects as malformed: on those the
     routes differ by design of the two grammars, and "the three routes agree" is read as agreement
@@ -255,6 +256,34 @@ theorem jsonRoute_eq_textRoute (lo hi : Nat) (hlo : isFinite lo = true) (hhi : i
       rcases hinf_or_nan with hi' | hn
       · exact (inf_rejected lo hi b hlo hhi hi').symm
       · exact (nan_rejected lo hi b hn).symm
+
+/-- **the JSON number grammar is contained in the text grammar, with the same reading**: every
+    string the JSON route reads as a number, `str::parse::<f64>` reads as the same number -/
+theorem json_grammar_in_text_grammar (s : String) (d : Dec) (h : parseJson s = .num d) :
+    parseRust s = .num d := parseRust_of_parseJson s d h
+
+/-- **on every JSON number the JSON route and the text route agree** (acceptance and stored pattern),
+    with no hypothesis on the string beyond its being a JSON number: the malformed-for-JSON strings
+    (`+1`, `01`, `1.`, `.5`, `inf`, `nan`) are exactly where the two grammars differ by design -/
+theorem json_text_agree_on_json_numbers (lo hi : Nat) (hlo : isFinite lo = true) (hhi : isFinite hi = true)
+    (s : String) (hj : parseJson s ≠ .bad) : jsonRoute true lo hi s = textRoute lo hi s := by
+  rcases parseJson_num_or_bad s with hb | ⟨d, hd⟩
+  · exact absurd hb hj
+  · exact jsonRoute_eq_textRoute lo hi hlo hhi s (by rw [hd, parseRust_of_parseJson s d hd])
+
+/-- whatever the JSON route accepts, the text route accepts with the same pattern - for EVERY string -/
+theorem json_accepts_imp_text_accepts (lo hi : Nat) (hlo : isFinite lo = true) (hhi : isFinite hi = true)
+    (s : String) (b : Nat) (h : jsonRoute true lo hi s = some b) : textRoute lo hi s = some b := by
+  rcases parseJson_num_or_bad s with hb | ⟨d, hd⟩
+  · simp [jsonRoute, hb, Parsed.bits?] at h
+  · rw [← json_text_agree_on_json_numbers lo hi hlo hhi s (by rw [hd]; exact fun h => Parsed.noConfusion h)]
+    exact h
+
+-- non-vacuity: "1.5e1" is a JSON number and both routes store 15.0 as a latitude; "+1" is not JSON
+example : parseJson "1.5e1" ≠ .bad := by decide
+example : jsonRoute true (boundBits .Latitude).1 (boundBits .Latitude).2 "1.5e1" = some 0x402E000000000000 := by decide +kernel
+example : textRoute (boundBits .Latitude).1 (boundBits .Latitude).2 "1.5e1" = some 0x402E000000000000 := by decide +kernel
+example : parseJson "+1" = .bad := by decide
 
 /-- without the attribute the JSON route would accept any finite number (the defect repaired by
     166a3b7): the unchecked route returns the parsed pattern whatever the range -/
